@@ -7,6 +7,13 @@
  'pieces': [
   {'op': 'glue', 'text': '#include <stdint.h>\n#include <stddef.h>\n#include <stdbool.h>\n#include <string.h>\n#include <ctype.h>\n'
                          '#include "c18_string_stub.h"\n'},
+  # goto-instrument --apply-loop-contracts makes every mutable static nondeterministic, and `static const char *base64_charset` is a
+  # mutable pointer (never written by base64.cpp).  The same two source lines are therefore copied twice: the first time under a macro
+  # that turns the declaration into `static const char *const vc_base64_charset_initial = "..."` (a constant, left alone by the
+  # instrumentation); the harness re-establishes base64_charset = vc_base64_charset_initial before the call (C18_RESTORE_STATICS).
+  {'op': 'glue', 'text': '#define base64_charset const vc_base64_charset_initial'},
+  {'op': 'lines', 'file': 'igris/util/base64.cpp', 'regex': r'^\s*static const char \*base64_charset =$|^\s*"ABCDEFGHIJKLMNOPQRSTUVWXYZ', 'min': 2},
+  {'op': 'glue', 'text': '#undef base64_charset\n#define C18_RESTORE_STATICS() (base64_charset = vc_base64_charset_initial)'},
   {'op': 'lines', 'file': 'igris/util/base64.cpp', 'regex': r'^\s*static const char \*base64_charset =$|^\s*"ABCDEFGHIJKLMNOPQRSTUVWXYZ', 'min': 2},
   {'op': 'func', 'file': 'igris/util/base64.cpp', 'name': 'is_base64'},
   {'op': 'func', 'file': 'igris/util/base64.cpp', 'name': 'base64_encode', 'occurrence': 0,
